@@ -122,6 +122,17 @@ class Ctx:
         log("  go test %s %s: rc=%d %.1fs" % (pkg, run, p.returncode, time.time() - t))
         return p.returncode, out
 
+    def go_test_binary(self, pkg):
+        """Compile the harness test binary of `pkg` once (for checks that start many processes)."""
+        out = os.path.join(self.scratch, pkg.replace("/", "_") + ".test")
+        if os.path.exists(out):
+            return out
+        cmd = ["go", "test", "-c", "-tags", "verif", "-vet=off", "-overlay", self.overlay(), "-o", out, "./" + pkg]
+        p = subprocess.run(cmd, cwd=REPO, env=self.go_env(), stdout=subprocess.PIPE, stderr=subprocess.STDOUT)
+        if p.returncode != 0 or not os.path.exists(out):
+            raise Inconclusive("harness does not build against %s:\n%s" % (REPO, p.stdout.decode("utf-8", "replace")[-3000:]))
+        return out
+
     # ---------------------------------------------------------------- TLC side
     def spec_dir(self, name, files=None):
         """Scratch copy of the spec directory (TLC litters states/ etc.)."""
